@@ -22,6 +22,7 @@ from ..common import Acc, chunks
 from . import _c16_int as I
 from . import _c14_int as A
 from . import _c14_prim as P
+from . import _c14_sub as S
 
 LEVEL = "exploration"
 RULE = ("complete enumeration of the stated grids; every case is executed on the real library and compared with "
@@ -45,6 +46,8 @@ def worker(shards):
             P.gen_case(sh[1], sh[2], sh[3], acc, sh[4])
         elif sh[0] == "legacy":
             P.legacy_worker(sh, acc)
+        elif sh[0] == "sub":
+            S.sub_run(sh[1], "shards", sh[2], acc)
         else:
             acc.error("unknown shard %r" % (sh,))
     return acc
@@ -84,7 +87,8 @@ def run(ctx):
 
     gen = P.gen_shards(q)
     nV = len(A.alphabet(q))
-    shards = [[s] for s in P.prim_shards(q)]
+    shards = [[("sub", cfg, b)] for b in P.child_shards(q) for cfg in S.CONFIGS]
+    shards += [[s] for s in P.prim_shards(q)]
     shards += [[s] for s in A.int_shards(q)]
     shards += [c for c in chunks(gen, 24 if q else 64)]
     shards += [[("legacy", "grid", i, q)] for i in range(nV)] + [[("legacy", "box", q)]]
@@ -119,9 +123,22 @@ def run(ctx):
                 % sorted(set(P.FAMILIES) - set(d.get("families", ()))))
     ctx.require(a.n.get("family_members", 0) >= (300 if q else 900), "fewer adversarial composites than expected (%d)"
                 % a.n.get("family_members", 0))
-    ctx.require(a.n.get("range_composites_with_liars", 0) >= (300 if q else 5000),
+    ctx.require(a.n.get("range_composites_with_liars", 0) >= (300 if q else 2000),
                 "too few composites of the exhaustive range have a liar tape")
-    ctx.require(a.n.get("prim_allbases", 0) >= (10000 if q else 200000), "all-bases Miller-Rabin sweep too small")
+    ctx.require(a.n.get("prim_allbases", 0) >= (10000 if q else 1000000), "all-bases Miller-Rabin sweep too small")
+    sb = dict(d.get("sub_backends", ()))
+    ctx.coverage_extra["primality_backends"] = dict(sb, default=selected)
+    ctx.require(set(sb) == set(S.CONFIGS), "primality child processes did not all run: %s" % sb)
+    for cfg in S.CONFIGS:
+        ctx.require(sb.get(cfg) in S.EXPECTED[cfg], "configuration %s selected the integer back-end %s" % (cfg, sb.get(cfg)))
+    if selected != "IntegerGMP":
+        ctx.assume("libgmp could not be loaded: Primality is not covered on the GMP back-end")
+    if sb.get("nogmp") != "IntegerCustom":
+        ctx.assume("the custom C back-end could not be selected: Primality is not covered on it")
+    for cfg in S.CONFIGS:
+        ctx.require(any(c[0] == "tpp" and c[1] == "prime" and c[2] and c[-1] == cfg for c in pc) and
+                    any(c[0] == "lucas" and c[1] == "composite" and not c[2] and c[-1] == cfg for c in pc),
+                    "primality under configuration %s is vacuous" % cfg)
     gc = d.get("gen_classes", set())
     ctx.require(any(c[1] == "refused" and not c[2] for c in gc) and any(c[1] == "generated" for c in gc),
                 "prime generation: no refusal or no generated prime observed")
@@ -154,7 +171,7 @@ def run(ctx):
             "B-primality": {
                 "range": "every n in [0, 2^%d) x (lucas, tpp x 2-3 tapes, mr x 3-4 (iterations, tape), isPrime)"
                          % (13 if q else 17),
-                "all_bases": "every odd n < %d x every base in [2, n-2], one round" % (256 if q else 1024),
+                "all_bases": "every odd n < %d x every base in [2, n-2], one round" % (256 if q else 2048),
                 "families": list(P.FAMILIES), "family_members": a.n.get("family_members", 0),
                 "tapes": {"test_probable_prime": list(P.TPP_STRATS), "miller_rabin_test(iterations, tape)": list(P.MR_GRID),
                           "isPrime": ["small", "seed0", "liar"],
@@ -186,8 +203,10 @@ def run(ctx):
                "_mult_modulo_bytes / fail_if_divisible_by outside their documented domains are logged, not judged")
     ctx.assume("modular square roots with a composite modulus: the docstring of _tonelli_shanks allows either ValueError "
                "or a correct root; a wrong root is a violation, a refusal is not")
-    ctx.assume("Primality runs on the back-end selected by Crypto.Math.Numbers (%s); its agreement across back-ends is "
-               "C16 part D" % selected)
+    ctx.assume("Primality and prime generation run on the back-end selected by Crypto.Math.Numbers (%s) in the driver "
+               "process and are repeated in child processes under PYCRYPTODOME_DISABLE_GMP=1 (%s) and with the GMP and "
+               "custom modules made unimportable (%s)%s" % (selected, sb.get("nogmp"), sb.get("native"),
+               "; in quick the children cover [0, 2^12), all families, the prime list and 4 generation sizes" if q else ""))
     ctx.assume("primes above 3.3e24 (generated primes, large members of the prime list) are certified by mc.ref.nt.is_prime = "
                "13 fixed Miller-Rabin bases + strong Lucas (no known counterexample), not by a primality proof")
     ctx.assume("a composite declared probably prime is accepted as the algorithm's documented error case only when EVERY "
@@ -202,11 +221,11 @@ def replay(case, acc):
     part = case["part"]
     if part == "int":
         A.int_case(case["op"], tuple(A.dec_val(v) for v in case["vals"]), case["form"], acc)
-    elif part == "prim":
-        st = case["strat"]
-        P.prim_case(case["fn"], case["n"], st, case["iters"], acc, case.get("family", ""), case.get("liar_limit", 300))
-    elif part == "gen":
-        P.gen_case(case["fn"], case["bits"], case["label"], acc, case.get("extra"))
+    elif part in ("prim", "gen"):
+        if case.get("cfg", "default") != "default":
+            S.sub_run(case["cfg"], "case", case, acc)        # under the integer back-end it was found with
+        else:
+            P.replay_case(case, acc)
     elif part == "legacy":
         P.legacy_case(case["fn"], case["a"], case["b"], acc)
     else:
